@@ -30,6 +30,21 @@ def run(ck: Check, prog: Program) -> None:
             ck.ob(rule, f'{outer.name}: {rule}', not bad, sample={'facts': facts} if rule == 'RETRY-BOUND' else None)
         for rule, construct, line, msg in problems:
             ck.finding(rule, w.qualname, construct, w.module.rel, line, msg)
+    # "a listed error code": the code the re-send condition looks at is the one the server sent — the error object keeps the code
+    # it was built with whatever its value (0 is a code like any other; no truthiness on the protocol scalar)
+    from ..absint import Interp as _Interp
+    from ..model import norm as _norm
+    from .common import EXC as _EXC
+    from .sentinel import sent_truth
+    ector = prog.func(_EXC + '.JsonRpcError.__init__')
+    ck.functions.add(ector.qualname)
+    flagged, n_c = sent_truth(prog, _Interp(prog), ector, scalar_rule=True)
+    ck.ob('RETRY-COND', 'the error code compared with the listed codes is the code received (JsonRpcError.__init__ keeps a falsy code)', not flagged,
+          sample={'conditions': n_c})
+    for s_, why, kinds in flagged:
+        ck.finding('RETRY-COND', ector.qualname, f'truthiness of {_norm(s_.expr)} in {s_.context}', ector.module.rel, s_.node.line,
+                   f'`{_norm(s_.node.ast)[:100]}`: {why}. An error answered with the (legal) code 0 gets the class default instead — None for the base '
+                   f'class — so `code in retry_strategy.codes` fails for a listed code 0 and the request is not re-sent')
     facts, problems = backoff_facts(prog)
     for rule in ('BACKOFF-BOUND', 'BACKOFF-SHAPE'):
         bad = [p for p in problems if p[0] == rule]
